@@ -155,7 +155,9 @@ theorem bury_dig (n : Nat) (xs : List V) (ats : List A) (h : xs.length = n + 1) 
 /-! ### extraction -/
 
 /-- compiler correctness: on a view tree in which only FIRST operands are themselves views, the extracted composition
-    applied to the extracted operands reproduces the view (host evaluation) -/
+    applied to the extracted operands reproduces the view (host evaluation).  The tree may contain every operand kind
+    the extraction code distinguishes: host arrays, aliased arrays, number literals, array-valued views and NUMBER-valued
+    views (`View.snode`: a reduction over all axes, a 0-d result that broadcasts like a scalar). -/
 theorem compile_correct (env : Nat → V) (v : View A V) (h : v.leftLinear = true) :
     applyComp ⟨v.compile, []⟩ (v.operandsOf.map env) = some (.values [v.denote env]) := by
   have := View.run_compile env v [] [] h
@@ -183,6 +185,22 @@ theorem leftLinear_wellFormed (v : View A V) (h : v.leftLinear = true) : v.wellF
 theorem operandsOf_are_leaves (v : View A V) : v.operandsOf = v.leavesAcc [] := by
   rw [View.leavesAcc_eq]; simp
 
+/-- the `if constexpr` chain every operand goes through (alias → finish; view → its composition; number or array that
+    is not a view → nothing) never drops the composition of a view — in particular not that of a NUMBER-valued view, which
+    satisfies `is_num_v` as well as `is_view_v`: whatever the operand kind, the chain yields the operand's own composition -/
+theorem operand_dispatch (v : View A V) : v.operandKindOk = true ∧ v.dispatch v.compile = v.compile :=
+  ⟨by cases v <;> rfl, View.dispatch_compile v⟩
+
+/-- a number-valued view operand contributes its whole composition, a literal / host array / alias none -/
+theorem operand_dispatch_kinds (f : VFun A V) (ats : List A) (args : Args A V) (i : Nat) (sub : List (Fn A V)) :
+    (View.snode f ats args).dispatch sub = sub ∧ (View.node f ats args).dispatch sub = sub ∧
+    (View.lit i : View A V).dispatch sub = [] ∧ (View.leaf i : View A V).dispatch sub = [] ∧ (View.alias i : View A V).dispatch sub = [] :=
+  ⟨rfl, rfl, rfl, rfl, rfl⟩
+
+/-- the extracted composition has exactly one functor per operation of the view tree (array- and number-valued views
+    alike, sub-views in any position), none for host arrays, aliases and literals -/
+theorem compile_one_functor_per_op (v : View A V) : v.compile.length = v.nOps := View.compile_length v
+
 private def addV : VFun Unit Nat := ⟨2, fun _ xs => match xs with | [a, b] => a + b | _ => 0⟩
 private def mulV : VFun Unit Nat := ⟨2, fun _ xs => match xs with | [a, b] => a * b | _ => 0⟩
 private def negV : VFun Unit Nat := ⟨1, fun _ xs => match xs with | [a] => 1000 - a | _ => 0⟩
@@ -196,6 +214,18 @@ private def valuesOf : Option (CRes Unit Nat) → List Nat
 theorem compile_nonfirst_counterexample :
     let v : View Unit Nat := .node addV [] (.cons (.leaf 0) (.cons (.node mulV [] (.cons (.leaf 1) (.cons (.leaf 2) .nil))) .nil))
     v.denote envE = 17 ∧ valuesOf (applyComp ⟨v.compile, []⟩ (v.operandsOf.map envE)) = [11] ∧ v.leftLinear = false := by
+  decide
+
+private def sumAllV : VFun Unit Nat := ⟨1, fun _ xs => match xs with | [a] => 7 * a + 1 | _ => 0⟩
+private def subV : VFun Unit Nat := ⟨2, fun _ xs => match xs with | [a, b] => 100 + a - b | _ => 0⟩
+
+/-- KNOWN FINDING extract.nonfirst-view-operand with a NUMBER-valued view: `subtract(b, reduce_add(a, None))` — the 0-d
+    reduction is not the first operand.  Host: 100 + 3 - (7*2+1) = 88; extraction computes `subtract(reduce_add(b, None), a)`:
+    100 + (7*3+1) - 2 = 120 (in the C++ the result then has the shape of `a`, not of `b`). -/
+theorem compile_nonfirst_scalar_counterexample :
+    let v : View Unit Nat := .node subV [] (.cons (.leaf 1) (.cons (.snode sumAllV [] (.cons (.leaf 0) .nil)) .nil))
+    v.denote envE = 88 ∧ valuesOf (applyComp ⟨v.compile, []⟩ (v.operandsOf.map envE)) = [120] ∧ v.leftLinear = false
+      ∧ v.wellFormed = true := by
   decide
 
 /-! ### compute graph (under the hypothesis that node ids are pairwise distinct — NOT a theorem of the code: ids are
@@ -240,6 +270,31 @@ example :
     let v : View Unit Nat := .node negV [] (.cons (.node addV [] (.cons (.node mulV [] (.cons (.leaf 0) (.cons (.leaf 1) .nil))) (.cons (.leaf 2) .nil))) .nil)
     v.leftLinear = true ∧ v.denote envE = 989 ∧ valuesOf (applyComp ⟨v.compile, []⟩ (v.operandsOf.map envE)) = [989]
       ∧ v.operandsOf = [0, 1, 2] := by decide
+-- number-valued sub-views (0-d reductions) as FIRST operand of a binary ufunc: multiply(reduce_add_all(a), b), nested
+-- negative(multiply(reduce_add_all(multiply(a,b)), c)) and with a repeated leaf subtract(reduce_add_all(a), a)
+example :
+    let v : View Unit Nat := .node mulV [] (.cons (.snode sumAllV [] (.cons (.leaf 0) .nil)) (.cons (.leaf 1) .nil))
+    v.leftLinear = true ∧ v.denote envE = 45 ∧ valuesOf (applyComp ⟨v.compile, []⟩ (v.operandsOf.map envE)) = [45]
+      ∧ v.operandsOf = [0, 1] ∧ v.compile.length = 2 ∧ v.nOps = 2 ∧ Comp.arity ⟨v.compile, []⟩ = 2 := by decide
+example :
+    let v : View Unit Nat := .node negV [] (.cons (.node mulV [] (.cons (.snode sumAllV []
+      (.cons (.node mulV [] (.cons (.leaf 0) (.cons (.leaf 1) .nil))) .nil)) (.cons (.leaf 2) .nil))) .nil)
+    v.leftLinear = true ∧ v.denote envE = 785 ∧ valuesOf (applyComp ⟨v.compile, []⟩ (v.operandsOf.map envE)) = [785]
+      ∧ v.operandsOf = [0, 1, 2] ∧ v.compile.length = 4 := by decide
+example :
+    let v : View Unit Nat := .node subV [] (.cons (.snode sumAllV [] (.cons (.leaf 0) .nil)) (.cons (.leaf 0) .nil))
+    v.leftLinear = true ∧ v.denote envE = 113 ∧ valuesOf (applyComp ⟨v.compile, []⟩ (v.operandsOf.map envE)) = [113]
+      ∧ v.operandsOf = [0, 0] := by decide
+-- literal operands in either position and an aliased leaf: add(a, 5), multiply(3, alias b): one functor, two operands
+example :
+    let v : View Unit Nat := .node addV [] (.cons (.leaf 0) (.cons (.lit 2) .nil))
+    let w : View Unit Nat := .node mulV [] (.cons (.lit 1) (.cons (.alias 2) .nil))
+    v.leftLinear = true ∧ valuesOf (applyComp ⟨v.compile, []⟩ (v.operandsOf.map envE)) = [7] ∧ v.denote envE = 7 ∧ v.compile.length = 1 ∧
+    w.leftLinear = true ∧ valuesOf (applyComp ⟨w.compile, []⟩ (w.operandsOf.map envE)) = [15] ∧ w.operandsOf = [1, 2] := by decide
+-- the operand dispatch on a number-valued view: its composition is kept (two functors would be one if it were dropped)
+example :
+    let s : View Unit Nat := .snode sumAllV [] (.cons (.leaf 0) .nil)
+    s.isNum = true ∧ s.isView = true ∧ s.isAlias = false ∧ (s.dispatch s.compile).length = 1 := by decide
 -- leftLinear_wellFormed on that tree's shape: a left-linear depth-2 tree is well formed
 example :
     let v : View Unit Nat := .node addV [] (.cons (.node mulV [] (.cons (.leaf 0) (.cons (.leaf 1) .nil))) (.cons (.leaf 2) .nil))
